@@ -236,7 +236,27 @@ func (r *run) sequence(rng *lib.RNG, steps int) {
 	r.sc.Begin()
 	r.lines = nil
 	r.hs = nil
-	if rng.Bool() {
+	if rng.Chance(1, 4) {
+		// the constructor with arguments: NewMap(k, v, k, v, …) – the pairs are set one after the other, so
+		// a key that occurs more than once (also as a colliding key of another kind in between) keeps its
+		// LAST value and counts once (seeded change c15f stopped merging repeated keys)
+		n := rng.Range(1, 5)
+		d := &dict{}
+		var ps []types.Value
+		var toks []string
+		for j := 0; j < n; j++ {
+			k, v := lib.Pick(rng, r.keys), lib.Pick(rng, vals)
+			if j > 0 && rng.Chance(1, 2) {
+				k = ps[2*rng.Intn(j)] // repeat an earlier key
+			}
+			ps = append(ps, k, v)
+			d.set(k, v)
+			toks = append(toks, lib.EncodeVal(k), lib.EncodeVal(v))
+		}
+		r.add(types.NewMap(ps...), newCell(d), -1, true)
+		r.op("newp "+strings.Join(toks, " "), "0")
+		c.Hit("op-newmap-with-pairs")
+	} else if rng.Bool() {
 		r.add(types.NewMapWithSize(0), newCell(&dict{}), -1, false)
 		r.op("new", "0")
 	} else {
